@@ -781,7 +781,14 @@ class Saver:
 
         finally:
             if not self.closed:
-                self.close(wait_for=pending)
+                try:
+                    self.close(wait_for=pending)
+                except Exception as e:
+                    # Closing failed (e.g. the final metadata could not be written).
+                    # Keep it for the final check: this may run in a thread of its own.
+                    if self.got_exception is None:
+                        self.got_exception = e
+                    raise
 
     def save(self, chunk: strax.Chunk, chunk_i: int, executor=None):
         """Save a chunk, returning future to wait on or None."""
